@@ -891,7 +891,12 @@ func (fr *Frame) unop(n *vnode, i *ssa.UnOp) *Val {
 		}
 		a := fr.val(i.X, n)
 		if a.P != nil {
-			return &Val{T: x.readPlace(n.heap, a.P), Ty: i.Type()}
+			lv := x.readPlace(n.heap, a.P)
+			if lv != nil && lv.S == SInt && isRefType(i.Type()) {
+				// references are non-negative (0 is nil); array rows of pointers share the Int memory component
+				x.vc.Assume(Implies(n.reach, Ge(lv, IntLit(0))))
+			}
+			return &Val{T: lv, Ty: i.Type()}
 		}
 		if a.T == nil {
 			bail("load through unknown pointer in %s", fr.fn)
